@@ -26,6 +26,7 @@ import (
 	"io"
 	"os"
 	"runtime/pprof"
+	"strings"
 	"sync"
 	"time"
 
@@ -116,7 +117,8 @@ func searchPart(r *vlib.Report, p part, deadline time.Time, vs *foundList) {
 		maxDepth: p.depth,
 		deadline: deadline,
 		workers:  p.workers,
-		run:      func(path []Op) (string, *failure) { return p.run(path, nil) },
+		run:        func(path []Op) (string, *failure) { return p.run(path, nil) },
+		expandPast: func(f *failure) bool { return listedClasses[f.class] },
 		onViolation: func(path []Op, f *failure) {
 			c := Case{Part: p.name, Observe: p.observe, Ops: append([]Op(nil), path...)}
 			vs.add(f.class, describe(c, f.msg), c)
@@ -147,9 +149,28 @@ func searchPart(r *vlib.Report, p part, deadline time.Time, vs *foundList) {
 	}
 }
 
+// listedClasses: class keys of the known findings of this property, read from the findings file
+// the driver passes (-findings). A part that returns a state key together with a failure of a
+// listed class is expanded past that state (see pbfs.go, part_kube.go, part_registry.go).
+var listedClasses = map[string]bool{}
+
+func loadListed(path string) {
+	b, err := os.ReadFile(path)
+	if err != nil {
+		return
+	}
+	for _, ln := range strings.Split(string(b), "\n") {
+		f := strings.Fields(strings.TrimSpace(ln))
+		if len(f) >= 3 && f[0] == "finding:" && f[1] == "property=C13" && strings.HasPrefix(f[2], "class=") {
+			listedClasses[strings.TrimPrefix(f[2], "class=")] = true
+		}
+	}
+}
+
 func main() {
 	logx.Disable()
 	cfg := vlib.ParseFlags("C13", "model_checking")
+	loadListed(cfg.Findings)
 	r := vlib.NewReport(cfg)
 
 	d, dg, bd := 6, 4, 2 // depth bounds; bd: two-event watch responses are offered in the first bd steps
@@ -178,7 +199,7 @@ func main() {
 		"container":   {name: "container", observe: true, alphabet: containerAlphabet, depth: d, run: func(p []Op, w io.Writer) (string, *failure) { return runContainer(true, p, w) }},
 		"container-u": {name: "container", observe: false, alphabet: containerAlphabet, depth: d, run: func(p []Op, w io.Writer) (string, *failure) { return runContainer(false, p, w) }},
 		"registry":    {name: "registry", alphabet: registryAlphabet(bd), depth: d, run: runRegistry},
-		"kube":        {name: "kube", alphabet: kubeAlphabet, depth: d, run: runKube},
+		"kube":        {name: "kube", alphabet: kubeAlphabet, depth: 8, run: runKube}, // small: closes (or nearly) well before the bound
 		"glue":        {name: "glue", alphabet: glueAlphabet, depth: dg, run: runGlue, workers: 1}, // process-global registry: sequential
 	}
 
